@@ -31,7 +31,7 @@ CONSTANTS MaxInstr,    \* number of generated instructions
 Fill(type, class) ==
   CASE type = "int" /\ class = "ok"      -> {"0", "1+2", "2**10", "7//2", "'( 3 )*2'", "0x10"}
     [] type = "int" /\ class = "notint"  -> {"1.5", "1/2", "'a'", "None", "[1]", "{1}"}
-    [] type = "int" /\ class = "uneval"  -> {"1//0", "1/0", "5%0", "2.0**10000"}
+    [] type = "int" /\ class = "uneval"  -> {"1//0", "1/0", "5%0", "2.0**10000", "[1][2]", "input.txt", "{}['a']", "10**5000"}
     \* (braces and per-cent signs: text that is hostile to message formatting)
     [] type = "int" /\ class = "syntax"  -> {"1+", "(2", "2**", "1_", "0b2", "1+{", "1}", "'{'", "%d", "{0"}
     [] type = "int" /\ class = "name"    -> {"abc", "x+1", "__import__"}
@@ -165,8 +165,14 @@ Documented == {"PASS", "FAIL", "XFAIL", "XPASS", "SKIPPED", "SYNTAX_ERROR", "VAL
 \* (a value beyond what an instruction can use may be refused when it is validated or used)
 \* a well-formed case is executed; an instruction may still fail to do its job (a file that exists already, a
 \* timeout of 0 seconds): HARD_ERROR
+\* A defect that only shows "when the instruction runs" (a replacement string that refers to a group the regular
+\* expression does not have) is reported at the latest then - if the instruction runs: an assertion before it
+\* may have failed, which ends the case with FAIL.
+LateDefects == {<<"repl", "badref">>, <<"repl", "badesc">>}
+OnlyLate == defects # {} /\ defects \subseteq LateDefects
 Allowed == CASE Class = "Valid" /\ extremes = {} -> {"PASS", "FAIL", "HARD_ERROR"}
              [] Class = "Valid" -> {"PASS", "FAIL", "VALIDATION_ERROR", "HARD_ERROR"}
+             [] Class = "TextOnlyDefect" /\ OnlyLate /\ instr >= 2 -> {"SYNTAX_ERROR", "VALIDATION_ERROR", "HARD_ERROR", "FAIL"}
              [] Class = "TextOnlyDefect" -> {"SYNTAX_ERROR", "VALIDATION_ERROR", "HARD_ERROR"}
              [] OTHER -> Documented
 \* never allowed, whatever the class
